@@ -24,6 +24,7 @@ import (
 	"sync/atomic"
 	"testing"
 
+	"github.com/mithrandie/csvq/lib/value"
 	"pgregory.net/rapid"
 
 	"verif/internal/fw"
@@ -52,9 +53,10 @@ type dmlStep struct {
 }
 
 type dmlCase struct {
-	Rows  [][]*string `json:"rows"` // a b n of the rows id = 1..len
-	CPU   int         `json:"cpu"`
-	Steps []dmlStep   `json:"steps"`
+	Rows   [][]*string `json:"rows"` // a b n of the rows id = 1..len
+	CPU    int         `json:"cpu"`
+	Steps  []dmlStep   `json:"steps"`
+	Poison bool        `json:"poison,omitempty"` // the whole case runs with poisoning Discard: a discarded object that is stored or read shows the sentinel
 }
 
 var dmlWords = []string{"apple", "berry", "cedar", "delta", "ember", "fjord", "grape", "heron", "ivory", "jolly", "koala", "lemon"}
@@ -70,7 +72,7 @@ func isDML(op string) bool {
 }
 
 func genDMLCase(t *rapid.T) dmlCase {
-	c := dmlCase{CPU: 1 + fw.Uniform(t, "cpu", 2)}
+	c := dmlCase{CPU: 1 + fw.Uniform(t, "cpu", 2), Poison: fw.Pct(t, "poison", 40)}
 	n := 3 + fw.Uniform(t, "nrows", 5)
 	word := func(label string, nullPct int) *string {
 		if fw.Pct(t, label+"null", nullPct) {
@@ -609,6 +611,12 @@ func checkDML(c dmlCase) (fw.Outcome, *fw.Violation) {
 	if err := run.WriteFiles(dir, map[string]string{"t.csv": csv.String()}); err != nil {
 		return o, fw.Harness("write table: %v", err)
 	}
+	if c.Poison {
+		// (cases run one after the other; the switch is process-wide like in the programs check)
+		value.VerifPoison = true
+		defer func() { value.VerifPoison = false }()
+		o.Classes = append(o.Classes, "poisoning_discard")
+	}
 	s, err := run.NewSess(run.Opt{Dir: dir, CPU: c.CPU})
 	if err != nil {
 		return o, fw.Harness("session: %v", err)
@@ -706,7 +714,7 @@ func TestC14DMLIsolation(t *testing.T) {
 	fw.Run(t, fw.Spec[dmlCase]{
 		ID: "C14", Name: "dml_isolation", Quick: 4000, Thorough: 80000,
 		Gen: genDMLCase, Check: checkDML,
-		Rule: "a CSV file t (3-7 rows: id, two word columns, a number column, NULLs) and a step list: optionally a first DML on t (so that t is cached for update), then 2-5 creations (temporary views DECLARE v VIEW AS SELECT */filtered/columns exchanged FROM t or another view; cursors over t or a view, opened at once, optionally ORDER BY DESC; FETCH ABSOLUTE into one of three variable sets), then 2-6 further steps (70% DML, else creations); DML on ONE table drawn from t and the views: UPDATE with literals, swap SET a = b, b = a, SET a = b, n = n + 1, SET values from scalar subqueries on the updated table (MIN, COUNT, same row by id) or on another table, multi-row INSERT, DELETE, REPLACE USING (id) with a matched and an unmatched row, each with WHERE variants; after every DML statement all tables, all rows of all open cursors (plus COUNT and one position beyond), and all fetched variables are read back and compared (text + NULL-ness) with a reference model that evaluates every SET value on the state before the statement: the assigned table must equal the model, every other object must be unchanged; non-trivial = a DML ran while at least one other object existed; distinct by the sequence of (operation, target kind, WHERE kind)",
+		Rule: "a CSV file t (3-7 rows: id, two word columns, a number column, NULLs) and a step list: optionally a first DML on t (so that t is cached for update), then 2-5 creations (temporary views DECLARE v VIEW AS SELECT */filtered/columns exchanged FROM t or another view; cursors over t or a view, opened at once, optionally ORDER BY DESC; FETCH ABSOLUTE into one of three variable sets), then 2-6 further steps (70% DML, else creations); DML on ONE table drawn from t and the views: UPDATE with literals, swap SET a = b, b = a, SET a = b, n = n + 1, SET values from scalar subqueries on the updated table (MIN, COUNT, same row by id) or on another table, multi-row INSERT, DELETE, REPLACE USING (id) with a matched and an unmatched row, each with WHERE variants; after every DML statement all tables, all rows of all open cursors (plus COUNT and one position beyond), and all fetched variables are read back and compared (text + NULL-ness) with a reference model that evaluates every SET value on the state before the statement: the assigned table must equal the model, every other object must be unchanged; 40% of the cases run entirely under poisoning Discard (a value that a DML statement stores or a probe reads after it was discarded shows the sentinel instead of the model's value); non-trivial = a DML ran while at least one other object existed; distinct by the sequence of (operation, target kind, WHERE kind)",
 		Assumptions: []string{
 			"word cells are distinct lower-case ASCII words and numbers small non-negative integers, so that comparison, MIN/MAX and n + 1 have one documented result; values are compared as text with NULL-ness (a CSV cell is a string, an assigned literal an integer)",
 			"ids stay unique (INSERT uses fresh ids, REPLACE matches on id), so the by-id subqueries return at most one row",
